@@ -1,6 +1,7 @@
 import HapModel.Model.Cli
 import HapModel.Model.CliParse
 import HapModel.Model.Obj
+import HapModel.Model.OutPrefix
 /-!
 # C19 — CLI and Python entry points agree; list-in-file options equal repeated options   (PARTIAL)
 
@@ -106,5 +107,19 @@ example :
     (CliParse.parse exampleTable none ["--sample", "x", "--no-normalize", "g.vcf"]).toOption =
       some ([.add "samples" "x", .flag "normalize" false], ["g.vcf"]) := by
   decide
+
+/-! ### Where the breakpoints of `simgenotype --out` go (Model/OutPrefix) -/
+
+/-- **`--out stem.vcf` / `.bcf` / `.vcf.gz` / `.pgen` puts the breakpoints under `stem`, for every stem** – also one that holds
+    such an ending somewhere inside (`cohort.pgen.sim`, a directory `panel.vcf.gz_sims/`): the scan stops at the leftmost position
+    whose remainder *is* an ending, and no ending with something in front of it is an ending -/
+theorem breakpoints_prefix_of_out (stem e : List Char) (he : e ∈ OutPrefix.endings) :
+    OutPrefix.bpPrefix (stem ++ e) = stem :=
+  OutPrefix.bpPrefix_append stem e he
+
+/-- a name with none of the four endings is its own prefix -/
+theorem breakpoints_prefix_without_ending (out : List Char) (h : ∀ a e, e ∈ OutPrefix.endings → out ≠ a ++ e) :
+    OutPrefix.bpPrefix out = out :=
+  OutPrefix.bpPrefix_id out h
 
 end C19
